@@ -28,6 +28,62 @@ CHECKS = {
                 "evidence; sampling of the 2^32 / 2^64 spaces, exhaustive on the small ones.",
         "note": "trusts rv/refcodec.py (written from the standard, cross-checked on Annex F octets) and struct's IEEE-754 packing",
     },
+    "C02": {
+        "level": "exploration",
+        "design_ref": "DESIGN.md 3 C02",
+        "technique": "runtime monitor: reference TLV parser + bracket-depth model as oracles, sys.monitoring line budget for termination",
+        "text": "TagList.encode/decode, TagList.get_context and Any.decode/encode of the real library are run on (a) the "
+                "class x number x length-boundary cross product and random tag lists, (b) every octet string up to length "
+                "2 (quick) / 3 (thorough, 16.8M) plus mutants and random strings, (c) every open/close/context sequence "
+                "up to length 6/7; an independent clause-20.2.1 parser and a depth model decide each outcome, a "
+                "sys.monitoring LINE budget on the decoder loops turns non-termination into a verdict.",
+        "note": "trusts rv/refcodec.tlv_parse/tlv_encode; 4-octet length escapes above 70000 only sampled",
+    },
+    "C07": {
+        "level": "exploration",
+        "design_ref": "DESIGN.md 3 C07",
+        "technique": "runtime monitor: independent clause-20.1 header builder/parser as oracle on APDU.encode/decode, literal code tables",
+        "text": "All eight PDU types are encoded through APDU.encode and through the typed PDU classes over the cross "
+                "product of flags, code points and octet-field boundary values, compared octet for octet with an "
+                "independent clause-20.1 builder, decoded back and compared field by field; the four table functions "
+                "are compared with the standard's tables over all code points and capabilities 0..2000 (round down, "
+                "never up); every octet string up to length 2/3 and random longer ones must decode to the reference's "
+                "fields or raise DecodingError.",
+        "note": "trusts rv/wire.py apci_build/apci_parse and the two literal tables",
+    },
+    "C08": {
+        "level": "exploration",
+        "design_ref": "DESIGN.md 3 C08",
+        "technique": "runtime monitor: independent clause-6.2/6.4 builder/parser as oracle on NPDU and the twelve message classes",
+        "text": "NPDU.encode/decode and the twelve registered network messages are driven over destination/source address "
+                "shapes (1..255-octet stations, remote and global broadcast), hop counts, message types 0..255 with vendor "
+                "ids, priorities, all 256 control octets on decode, network lists 0..20 and routing tables 0..5; octets are "
+                "compared with an independent builder, decodes with an independent parser; forbidden headers (version, "
+                "broadcast/zero-length source, every truncation) must raise DecodingError and nothing else.",
+        "note": "trusts rv/wire.py npci_build/npci_parse/nlm_build",
+    },
+    "C09": {
+        "level": "exploration",
+        "design_ref": "DESIGN.md 3 C09",
+        "technique": "runtime monitor: independent Annex-J builder/parser as oracle on frames entering and leaving the real AnnexJCodec",
+        "text": "The twelve BVLL functions are sent through the real AnnexJCodec (tables 0..40, payloads 0..1497, address/"
+                "port/mask/TTL boundaries); every emitted frame must start 0x81, carry the function code and a length "
+                "field equal to the datagram length and equal the reference octets, and decode back to the same "
+                "parameters; inbound frames with every wrong length/type, all function codes 0..255, all short octet "
+                "strings and mutants must be refused or delivered exactly as the reference parses them.",
+        "note": "trusts rv/wire.py bvlc_build/bvlc_parse; which exception refuses an unknown function code is not prescribed",
+    },
+    "C18": {
+        "level": "exploration",
+        "design_ref": "DESIGN.md 3 C18",
+        "technique": "runtime monitor: independent notation parser + ipaddress as oracle; equivalence-relation and dict probes over spelling pools",
+        "text": "Every notation is parsed by the real Address class and by an independent parser; type, network, station "
+                "octets and (for IP forms, all 33 masks x port boundaries) subnet/host/directed broadcast from the "
+                "standard ipaddress module must agree; range edges must be refused; str()/parse round trips; all pairs "
+                "of ~150 spellings in ~25 equivalence pools are compared for ==, !=, hash and dict lookup in both "
+                "directions; tens of thousands of grammar mutants must be refused exactly when ill-formed.",
+        "note": "default settings (route_aware off); IPv4 components with leading zeros are skipped as ambiguous",
+    },
 }
 
 NOT_APPLICABLE = {pid: _PENDING for pid in ("C%02d" % i for i in range(1, 21)) if pid not in CHECKS}
